@@ -447,10 +447,43 @@ func reachFromEdges(starts []edge, cut map[edge]bool) map[*ssa.BasicBlock]bool {
 	return seen
 }
 
+// retResults returns the values returned by r, looking through the result spill that go/ssa
+// introduces in functions with defer (results are stored to locals, deferred calls run, then
+// the locals are loaded and returned).
+func retResults(r *ssa.Return) []ssa.Value {
+	out := make([]ssa.Value, len(r.Results))
+	for i, v := range r.Results {
+		out[i] = v
+		ld, ok := v.(*ssa.UnOp)
+		if !ok || ld.Op != token.MUL {
+			continue
+		}
+		al, ok := ld.X.(*ssa.Alloc)
+		if !ok || al.Heap {
+			continue
+		}
+		// last store to the alloc in this block before the load
+		var last ssa.Value
+		for _, in := range r.Block().Instrs {
+			if in == ssa.Instruction(ld) {
+				break
+			}
+			if st, ok := in.(*ssa.Store); ok && st.Addr == ssa.Value(al) {
+				last = st.Val
+			}
+		}
+		if last != nil {
+			out[i] = last
+		}
+	}
+	return out
+}
+
+// returnsOf lists the return instructions of fn, excluding the synthetic recover block.
 func returnsOf(fn *ssa.Function) []*ssa.Return {
 	var out []*ssa.Return
 	for _, b := range fn.Blocks {
-		if len(b.Instrs) == 0 {
+		if len(b.Instrs) == 0 || b == fn.Recover {
 			continue
 		}
 		if r, ok := b.Instrs[len(b.Instrs)-1].(*ssa.Return); ok {
@@ -632,10 +665,11 @@ func isSuccessReturn(r *ssa.Return) bool {
 	if idx < 0 {
 		return true
 	}
-	if idx >= len(r.Results) {
+	res := retResults(r)
+	if idx >= len(res) {
 		return true
 	}
-	return !definitelyNonNilErr(r.Results[idx], r.Block(), 0)
+	return !definitelyNonNilErr(res[idx], r.Block(), 0)
 }
 
 // ---------- misc ----------
